@@ -1,30 +1,42 @@
 /-
-F29 (C08, outside the property: the arrival gap equals the 10 ms delay).  If the Escape timer fires
-after `ReadRune` has returned the next byte but before `escTimeout.Stop()`, the callback runs
-concurrently with the transition on that byte.  The LTS label `raceFire` models the two possible
-orders of the callback's `state = ground` and the transition.
+F29 (C08).  Before its repair the Escape-timer callback emitted `C0 0x1B` without the mutex and
+reset the state afterwards, whenever it got to run.  If the timer expired just as the next bytes —
+or the end of input — arrived, the callback ran after them.  The LTS with the unguarded callback
+(`Cfg.unguarded`) reaches all three failures; the same schedules are forced on the real parser by
+the harness (yield hook at the start of the callback; corpus/C08/F29-*.ops) and with the repaired
+callback (`Cfg.fixed`) they are harmless.
 -/
 import VaxisModel.Model.ParserRun
 
 namespace VaxisModel.Witness.F29
 open VaxisModel.Model.Parser VaxisModel.Model.ParserRun
 
-/-- `ESC [ A` with the timer firing as `[` arrives (state reset lands after the transition): the
-    Escape key is reported *and* the sequence is torn apart — `[` is swallowed, `A` is printed.
-    Without the race the same bytes give exactly one CSI. -/
-theorem F29_state_reset_mid_sequence :
-    ((Sys.run handTable true Sys.init
-        [.enterRead, .read 0x1B, .enterRead, .raceFire 0x5B true, .enterRead, .read 0x41]).map (·.2))
-      = some [.c0 0x1B, .print 0x41] ∧
-    ((Sys.run handTable true Sys.init
-        [.enterRead, .read 0x1B, .enterRead, .read 0x5B, .enterRead, .read 0x41]).map (·.2))
+/-- `ESC [ A`, callback delayed until the sequence has been parsed: the CSI *and then* an Escape key. -/
+theorem F29_escape_after_sequence :
+    ((Sys.run handTable Cfg.unguarded Sys.init
+        [.enterRead, .read 0x1B, .enterRead, .timerExpire, .read 0x5B, .enterRead, .read 0x41, .cbRun false]).map (·.2))
+      = some [.csi [] [] 0x41, .c0 0x1B] ∧
+    ((Sys.run handTable Cfg.fixed Sys.init
+        [.enterRead, .read 0x1B, .enterRead, .timerExpire, .read 0x5B, .enterRead, .read 0x41, .cbRun false]).map (·.2))
       = some [.csi [] [] 0x41] := by decide
 
-/-- With the other order the Escape key is reported and the bytes are parsed from ground — the
-    same as a gap just above 10 ms; a harmless outcome of the same race. -/
-theorem F29_benign_order :
-    ((Sys.run handTable true Sys.init
-        [.enterRead, .read 0x1B, .enterRead, .raceFire 0x5B false, .enterRead, .read 0x41]).map (·.2))
-      = some [.c0 0x1B, .print 0x5B, .print 0x41] := by decide
+/-- Callback delayed until the middle of the sequence: the state is reset to ground after `[`,
+    the sequence is torn apart (`A` is printed). -/
+theorem F29_state_reset_mid_sequence :
+    ((Sys.run handTable Cfg.unguarded Sys.init
+        [.enterRead, .read 0x1B, .enterRead, .timerExpire, .read 0x5B, .cbRun false, .enterRead, .read 0x41]).map (·.2))
+      = some [.c0 0x1B, .print 0x41] ∧
+    ((Sys.run handTable Cfg.fixed Sys.init
+        [.enterRead, .read 0x1B, .enterRead, .timerExpire, .read 0x5B, .cbRun false, .enterRead, .read 0x41]).map (·.2))
+      = some [.csi [] [] 0x41] := by decide
+
+/-- Callback delayed past the end of the loop: send on the closed channel — the process panics. -/
+theorem F29_send_on_closed_channel :
+    ((Sys.run handTable Cfg.unguarded Sys.init
+        [.enterRead, .read 0x1B, .enterRead, .timerExpire, .readEnd, .cbRun false]).map (·.2))
+      = some [.eof, .panic] ∧
+    ((Sys.run handTable Cfg.fixed Sys.init
+        [.enterRead, .read 0x1B, .enterRead, .timerExpire, .readEnd, .cbRun false]).map (·.2))
+      = some [.eof] := by decide
 
 end VaxisModel.Witness.F29
